@@ -5,3 +5,11 @@ claim("C01", "Lean 4 proof of soundness of every engine step by induction over a
       "over any schedule and infer runs; hence no contradiction. Tied to /repo by exact differential execution of random weighted "
       "programs (bounds after every call) and an interpretation-first oracle on the implementation.",
       NOTE_COMMON, "DESIGN.md §6 C01")
+claim("C04", "Lean 4 proofs of point evaluation, classical/Kleene tables and duality laws + exhaustive differential correspondence on formula trees",
+      "Theorems C04_point / C04_point_call (on the engine: for any KB, any children-first schedule, point inputs give every scheduled "
+      "sub-formula, incl. Iff/XOr composites, the point value of its weighted Lukasiewicz truth function), C04_classical_* (n-ary And/Or, "
+      "Implies, Not, Iff, exactly-one XOr of any arity reproduce the classical table on {0,1}), C04_kleene_* (strong Kleene on "
+      "{FALSE,UNKNOWN,TRUE} bounds, any arity), C04_dual_* (Or = neg-And-neg, Implies = Or with negated antecedent, upward and downward, "
+      "all intervals/weights/biases). Tied to /repo by exhaustive enumeration of formulae up to depth 2 on three-valued inputs (every "
+      "sub-formula's state() vs the Kleene table vs the Lean model) and random dual pairs in both directions.",
+      NOTE_COMMON + " Nested downward duality beyond one level is covered by correspondence only.", "DESIGN.md §6 C04")
